@@ -29,9 +29,9 @@ func (c *Ctx) mutexCall(cc *ssa.CallCommon) (kind string, mpath string) {
 }
 
 type lockSite struct {
-	kind  string
-	mpath string
-	in    ssa.Instruction
+	kind   string
+	mpath  string
+	in     ssa.Instruction
 	defer_ bool
 }
 
@@ -151,7 +151,7 @@ func isFreshBase(v ssa.Value) bool {
 
 // isOptionClosureParam: v is the parameter of a function literal nested in a function that returns a
 // named func type called Option (the functional-options idiom: runs at construction time).
-func isOptionClosureParam(v ssa.Value) bool {
+func isOptionClosureParam(c *Ctx, v ssa.Value) bool {
 	base := v
 	for {
 		if fa, ok := base.(*ssa.FieldAddr); ok {
@@ -164,12 +164,12 @@ func isOptionClosureParam(v ssa.Value) bool {
 	if !ok {
 		return false
 	}
-	f := p.Parent()
-	par := f.Parent()
-	if par == nil {
-		return false
-	}
-	res := par.Signature.Results()
+	return optionTimeFunc(c, p.Parent(), 0)
+}
+
+// returnsOptionType: f's single result is a named function type of the module called ...Option / ...Opt.
+func returnsOptionType(f *ssa.Function) bool {
+	res := f.Signature.Results()
 	if res.Len() != 1 {
 		return false
 	}
@@ -178,7 +178,59 @@ func isOptionClosureParam(v ssa.Value) bool {
 		return false
 	}
 	_, isSig := n.Underlying().(*types.Signature)
-	return isSig && strings.HasSuffix(n.Obj().Name(), "Option") || isSig && strings.HasSuffix(n.Obj().Name(), "Opt")
+	return isSig && (strings.HasSuffix(n.Obj().Name(), "Option") || strings.HasSuffix(n.Obj().Name(), "Opt"))
+}
+
+// optionTimeFunc: f runs only as (part of) a functional option, i.e. at construction time. The spellings:
+// a closure built in a constructor of options (a function returning the option type); an unexported method
+// whose method value is what such a constructor returns; an unexported function or method called only from
+// functions that are themselves option-time.
+func optionTimeFunc(c *Ctx, f *ssa.Function, depth int) bool {
+	if f == nil || depth > 3 {
+		return false
+	}
+	if par := f.Parent(); par != nil {
+		return returnsOptionType(par) || optionTimeFunc(c, par, depth+1)
+	}
+	if f.Object() == nil || f.Object().Exported() {
+		return false
+	}
+	uses, ok := 0, true
+	for _, g := range c.Funcs {
+		forEachInstr(g, func(in ssa.Instruction) {
+			switch x := in.(type) {
+			case ssa.CallInstruction:
+				cm := x.Common()
+				if cm.StaticCallee() == f {
+					uses++
+					if g == f || !optionTimeFunc(c, g, depth+1) {
+						ok = false
+					}
+				}
+				for _, a := range cm.Args {
+					if a == ssa.Value(f) {
+						ok = false
+					}
+				}
+			case *ssa.MakeClosure:
+				w, isF := x.Fn.(*ssa.Function)
+				if !isF || w.Synthetic == "" || w.Object() != f.Object() {
+					return
+				}
+				uses++
+				if !(returnsOptionType(g) || optionTimeFunc(c, g, depth+1)) {
+					ok = false
+				}
+			default:
+				for _, op := range in.Operands(nil) {
+					if *op == ssa.Value(f) {
+						ok = false
+					}
+				}
+			}
+		})
+	}
+	return ok && uses > 0
 }
 
 var safeGlobalTypes = []string{"*regexp.Regexp", "*log/slog.Logger", "*log.Logger", "error", "sync.RWMutex", "sync.Mutex"}
@@ -258,7 +310,7 @@ func runC20(c *Ctx) {
 				if m, has := guardedGlobals[gp]; has && c.lockHeldAt(fn, st, m, true) {
 					continue
 				}
-				if c.isGenFile(fn.Pos()) || isMockPath(fn.Pkg.Pkg.Path()) {
+				if c.isGenFile(fn.Pos()) || isMockPath(pkgPathOf(fn)) {
 					continue
 				}
 				ok = false
@@ -452,7 +504,7 @@ func runC20(c *Ctx) {
 			ok := false
 			why := ""
 			switch {
-			case isOptionClosureParam(base):
+			case isOptionClosureParam(c, base):
 				ok, why = true, "functional option (construction time)"
 			case structHasMutex(baseT) != "" && c.lockHeldAt(f, st, c.Path(base, nil)+"."+structHasMutex(baseT), true):
 				ok, why = true, "under the struct's mutex"
